@@ -155,6 +155,18 @@ def run(ck):
                     ck.disagree(key='%s.length/outside-bracket-or-not-additive' % type(seg).__name__, site='svgpathtools/path.py:length',
                                 what='[%s] %r: length %r, bracket [%r, %r], length(0,.375)+length(.375,1) = %r' % (cfg, seg, Lg, lo, hi, parts),
                                 case={'z': [str(w) for w in z], 'cfg': cfg}, expected=[lo, hi], observed=repr(Lg), driver='generic')
+                # the same request on a segment object whose whole length was first asked for with rough tolerances
+                if not isinstance(Lg, Exception):
+                    seg2 = make(z)
+                    try:
+                        seg2.length(error=10, min_depth=0)
+                        L2 = seg2.length()
+                    except Exception as e:      # noqa
+                        L2 = e
+                    if isinstance(L2, Exception) or not (abs(L2 - Lg) <= atol):
+                        ck.disagree(key='%s.length/after-a-rough-request' % type(seg).__name__, site='svgpathtools/path.py:length',
+                                    what='[%s] %r: length() = %r after length(error=10, min_depth=0) on the same object, %r on a new one' % (cfg, seg, L2, Lg),
+                                    case={'z': [str(w) for w in z], 'cfg': cfg}, expected=Lg, observed=repr(L2), driver='generic')
             # paths: sum of the segments
             segs = [sp.Line(0j, 3 + 4j), sp.QuadraticBezier(3 + 4j, 6 + 8j, 3 + 4j), sp.CubicBezier(3 + 4j, 1 + 1j, 5 - 2j, 7 + 0j),
                     sp.Arc(7 + 0j, 5 + 5j, 0, False, True, 13 + 8j)]
@@ -165,6 +177,19 @@ def run(ck):
                 if not (abs(p.length() - tot) <= 1e-9 * tot):
                     ck.disagree(key='Path.length/not-the-sum', site='svgpathtools/path.py:Path.length', what='[%s] Path.length() = %r, sum of segments %r' % (cfg, p.length(), tot),
                                 case={'k': k, 'cfg': cfg}, expected=tot, observed=p.length(), driver='path')
+                # ... also when the path was measured while it was being put together, or first measured roughly
+                grown = sp.Path(segs[0])
+                for j in range(1, k):
+                    grown.length()
+                    [grown.append, lambda x: grown.extend([x]), lambda x: grown.insert(len(grown), x)][(j + k) % 3](segs[j])
+                rough = sp.Path(*[type(s_)(*(s_.bpoints() if not isinstance(s_, sp.Arc) else (s_.start, s_.radius, s_.rotation, s_.large_arc, s_.sweep, s_.end)))
+                                  for s_ in segs[:k]])
+                rough.length(error=10, min_depth=0)
+                for nm, q_ in (('grown', grown), ('rough-first', rough)):
+                    if not (abs(q_.length() - tot) <= 1e-6 * tot):
+                        ck.disagree(key='Path.length/not-the-sum/' + nm, site='svgpathtools/path.py:Path.length',
+                                    what='[%s] %s path: length() = %r, sum of segments %r' % (cfg, nm, q_.length(), tot),
+                                    case={'k': k, 'cfg': cfg, 'how': nm}, expected=tot, observed=q_.length(), driver='path')
     finally:
         sppath._quad_available = old
     ck.sample('collinear', cases[0])
